@@ -9,7 +9,10 @@ per-flag kernel dictionary, the FFTW plan-cache keys (addresses stripped) and a 
 non-callable module-level object and closure cell of bldfm.* (so a buffer hoisted to module scope
 becomes part of the state automatically).
 
-Alphabet: solves A (8x6 double dispersion numeric), B (same shapes as A, other domain / profiles /
+Alphabet: solves A (8x6 double dispersion numeric, halo 13 -> padded 10x6), A2 (A with halo 30 and nothing else changed),
+J (E with halo 20 and the tower moved so that the padded tower offset is E's), all sources of one shape living in ONE array
+object refilled in place, H (10x6 dispersion without halo: the same
+padded shape as A with a larger interior - collides with A on any reused padded work array), B (same shapes as A, other domain / profiles /
 source / background - collides with A on anything keyed by shape only), C (16x12 single footprint,
 default halo and modes), D (8x6 double analytic), E (8x6 double footprint, multi-level, halo 13), G (as E on a 10x8 grid: same modes,
 domain and halo - collides with E on anything keyed without the grid);
@@ -36,12 +39,12 @@ PROPERTY = "C12"
 LEVEL = "model_checking"
 MANIFEST = {
     "technique": "explicit-state breadth-first search over call histories of the real library (one pristine forked process per history, states deduplicated by a canonical global-state digest), oracle = fresh-process result of the same call",
-    "text": "All call sequences up to the depth bound over an alphabet of six colliding solves, four thread settings, FFT-manager reset and bare FFTs, from both wisdom environments, are executed on the implementation itself; the search is closed under the library's own global state (every module-level object and closure cell is part of the state key), so any result that depends on what ran before - a cached grid keyed by shape, a reused output buffer, a kernel compiled for another flag, a thread setting left behind - shows as a difference from the fresh-process reference, a loss of bit-identity, or a mutated earlier result.",
+    "text": "All call sequences up to the depth bound over an alphabet of nine colliding solves, four thread settings, FFT-manager reset and bare FFTs, from both wisdom environments, are executed on the implementation itself; the search is closed under the library's own global state (every module-level object and closure cell is part of the state key), so any result that depends on what ran before - a cached grid keyed by shape, a reused output buffer, a kernel compiled for another flag, a thread setting left behind - shows as a difference from the fresh-process reference, a loss of bit-identity, or a mutated earlier result.",
     "note": "Thread SETTINGS x histories are enumerated; the interleaving of numba's / FFTW's internal worker threads inside one kernel launch cannot be controlled from Python (the kernel has no reductions). State deduplication is validated in the thorough tier by re-running one full depth without deduplication and comparing the verdicts. FFTW plan-cache expiry (30 s keep-alive) is outside the horizon of a history (< 5 s).",
 }
 
-SOLVES = "ABCDEG"
-OPS = ["A", "B", "C", "D", "E", "G", "T1", "T2", "T4", "T8", "R", "F"]
+SOLVES = ["A", "A2", "B", "C", "D", "E", "G", "H", "J"]
+OPS = ["A", "A2", "B", "C", "D", "E", "G", "H", "J", "T1", "T2", "T4", "T8", "R", "F"]
 
 
 def solve_args(name):
@@ -50,19 +53,31 @@ def solve_args(name):
     qA, qB, qC = rng.standard_normal((6, 8)), rng.standard_normal((6, 8)) + 2.0, rng.random((12, 16))
     if name == "A":
         z, prof = sl.build_profiles("most_aniso", 4)
-        return dict(srf_flx=qA, z=z, profiles=prof, domain=(80.0, 90.0), levels=[2, 4], modes=(8, 6), halo=0.0, precision="double")
+        return dict(srf_flx=qA, z=z, profiles=prof, domain=(80.0, 90.0), levels=[2, 4], modes=(8, 6), halo=13.0, precision="double")
+    if name == "A2":  # A with another halo and NOTHING else changed (same z, profiles, levels, domain, modes, source)
+        z, prof = sl.build_profiles("most_aniso", 4)
+        return dict(srf_flx=qA, z=z, profiles=prof, domain=(80.0, 90.0), levels=[2, 4], modes=(8, 6), halo=30.0, precision="double")
+    if name == "J":  # E with another halo and a tower moved so that the PADDED tower offset (40, 45) is the same
+        z, prof = sl.build_profiles("most_aniso", 4)
+        return dict(srf_flx=qB, z=z, profiles=prof, domain=(80.0, 90.0), levels=[4, 1], modes=(8, 6), halo=20.0, meas_pt=(20.0, 30.0), footprint=True, precision="double")
+    if name == "H":  # dispersion on a 10x6 grid without halo: the same PADDED shape as A (10x6) with a larger interior
+        z, prof = sl.build_profiles("most_u", 4)
+        return dict(srf_flx=np.random.default_rng(5).standard_normal((6, 10)) + 3.0, z=z, profiles=prof, domain=(100.0, 90.0), levels=[2, 4], modes=(8, 6), halo=0.0, precision="double")
     if name == "B":
         z, prof = sl.build_profiles("mostm_s", 4)
-        return dict(srf_flx=qB, z=z * 1.5, profiles=prof, domain=(160.0, 60.0), levels=[2, 4], modes=(8, 6), halo=0.0, precision="double", srf_bg_conc=2.5)
+        return dict(srf_flx=qB, z=z * 1.5, profiles=prof, domain=(160.0, 60.0), levels=[2, 4], modes=(8, 6), halo=13.0, precision="double", srf_bg_conc=2.5)
     if name == "C":
         z, prof = sl.build_profiles("most_u", 4)
         return dict(srf_flx=qC, z=z, profiles=prof, domain=(160.0, 120.0), levels=4, meas_pt=(50.0, 40.0), footprint=True, precision="single")
     if name == "D":
         z, prof = sl.build_profiles("const", 4)
-        return dict(srf_flx=qA, z=z, profiles=prof, domain=(80.0, 90.0), levels=[2, 4], modes=(8, 6), halo=0.0, precision="double", analytic=True)
+        # same domain, source shape and level indices as A on a column with other node heights
+        # ... with A's halo (same pad widths) and ANOTHER source in the same array object (see _run_solve)
+        return dict(srf_flx=qB, z=z * 1.25, profiles=prof, domain=(80.0, 90.0), levels=[2, 4], modes=(8, 6), halo=13.0, precision="double", analytic=True)
     if name == "E":
         z, prof = sl.build_profiles("most_aniso", 4)
-        return dict(srf_flx=qB, z=z, profiles=prof, domain=(80.0, 90.0), levels=[4, 1, 3], modes=(8, 6), halo=13.0, meas_pt=(30.0, 45.0), footprint=True, precision="double")
+        # two unsorted levels: the padded spectrum (2, 6, 10) has the shape of A's, so footprint (forward FFT) and dispersion (inverse FFT) meet on one shape
+        return dict(srf_flx=qB, z=z, profiles=prof, domain=(80.0, 90.0), levels=[4, 1], modes=(8, 6), halo=13.0, meas_pt=(30.0, 45.0), footprint=True, precision="double")
     if name == "G":  # same mode count, domain and halo as E on ANOTHER grid (10x8): collides with E on anything keyed without the grid
         z, prof = sl.build_profiles("most_aniso", 4)
         return dict(srf_flx=np.zeros((8, 10)), z=z, profiles=prof, domain=(80.0, 90.0), levels=[4, 1, 3], modes=(8, 6), halo=13.0, meas_pt=(30.0, 45.0), footprint=True, precision="double")
@@ -161,9 +176,19 @@ def global_state():
     return st
 
 
-def _run_solve(name):
+_SRC_BUFFERS = {}
+
+
+def _run_solve(name, share_buffers=True):
     S = sl.solver()
     kw = solve_args(name)
+    if share_buffers:
+        # one preallocated source map per shape, refilled IN PLACE by every solve of the history (a time-stepping caller
+        # does exactly this): anything remembered by array identity instead of array contents goes stale
+        q = kw["srf_flx"]
+        buf = _SRC_BUFFERS.setdefault(q.shape, np.empty(q.shape))
+        buf[...] = q
+        kw["srf_flx"] = buf
     before = _digest_arrays(kw)
     g, c, f = S(**kw)
     after = _digest_arrays(kw)
@@ -174,7 +199,7 @@ def case_reference(case):
     """every solve of the alphabet, alone, in a fresh one-thread process; written to case['path']"""
     out = {}
     name = case["solve"]
-    kw, (c, f, g), _ = _run_solve(name)
+    kw, (c, f, g), _ = _run_solve(name, share_buffers=False)
     np.savez(case["path"], c=c, f=f, gx=g[0], gy=g[1], gz=g[2])
     if name == "A":  # what the library's own exit hook would write
         import pickle
@@ -212,7 +237,7 @@ def case_history(case):
     runs = []  # (name, threads, conc bytes, flx bytes, arrays, digest at return)
     sig_hist = "%s" % ("".join(o if len(o) == 1 else "(%s)" % o for o in hist))
     for pos, op in enumerate(hist):
-        if op[0] == "T":
+        if op[0] == "T" and op[1:].isdigit():
             config.NUM_THREADS = int(op[1:])
         elif op == "R":
             fm.reset_fft_manager()
@@ -266,6 +291,9 @@ def case_history(case):
 
 def run(ctx):
     core.warm_numba()
+    global OPS
+    if ctx.tier == "quick":
+        OPS = [o for o in OPS if o != "T8"]
     depth = 3 if ctx.tier == "quick" else 4
     refdir = os.path.join(ctx.tmp_root, "refs")
     os.makedirs(refdir)
@@ -317,11 +345,11 @@ def run(ctx):
         "depth_completed": maxdepth_done,
         "frontier_empty": not frontier,
         "per_depth": per_depth,
-        "alphabet": OPS,
+        "alphabet": list(OPS),
         "no_dedup_validation": nodedup,
         "state_key": "thread settings (bldfm.config, FFT manager, pyfftw, numba) + kernel-dictionary keys + FFTW plan-cache keys + digest of every non-callable module-level object / closure cell of bldfm.* + wisdom environment",
     })
     ctx.rule = (
-        "BFS over histories: from every distinct canonical state reached at depth d every operation of the 12-letter alphabet is executed (one pristine forked process per history, whole history replayed), "
+        "BFS over histories: from every distinct canonical state reached at depth d every operation of the operation alphabet is executed (one pristine forked process per history, whole history replayed), "
         "from both wisdom environments, to depth %d; non-trivial = histories of length >= 2 containing at least one solve; distinct = distinct histories; evaluations counts solver executions" % depth
     )
